@@ -1463,70 +1463,172 @@ def AnnE.strip : AnnE → AnnE
   | .bor a b => .bor a.strip b.strip
   | .atom a => .atom a
   | .literalName => .literalName
+  | .annotatedName => .annotatedName
+  | .aliasRef a t => .aliasRef a t
   | .noneLit => .noneLit
   | .badStr a => .badStr a
 
-/-- no string constant is left, except verbatim inside the slice of a `Literal[...]` / `x.Literal[...]` -/
+/-- no forward reference is left quoted: no string constant remains, except verbatim inside the slice of
+something that designates `typing.Literal`, and as metadata (everything but the first argument) of
+something that designates `typing.Annotated` -/
 def AnnE.noQuotes : AnnE → Bool
   | .str _ => false
   | .badStr _ => false
   | .attr v _ => v.noQuotes
-  | .sub v s => v.noQuotes && (v.isLiteralRef || s.noQuotes)
+  | .sub v s =>
+    v.noQuotes && (v.isTypingName .literal || s.noQuotes ||
+      (v.isTypingName .annotated && match s with | .tup a _ => a.noQuotes | _ => false))
   | .tup a b => a.noQuotes && b.noQuotes
   | .bor a b => a.noQuotes && b.noQuotes
   | _ => true
 
-theorem visit_spec : ∀ (e : AnnE),
-    (e.visit.2).strip = e.strip ∧
-    ∀ r, e.visit.1 = some r → r.strip = e.strip ∧ r.noQuotes = true ∧ r.visit = (some r, r) := by
-  intro e
-  induction e with
-  | atom a => simp [AnnE.visit, AnnE.strip, AnnE.noQuotes]
-  | literalName => simp [AnnE.visit, AnnE.strip, AnnE.noQuotes]
-  | noneLit => simp [AnnE.visit, AnnE.strip, AnnE.noQuotes]
-  | badStr a => simp [AnnE.visit, AnnE.strip]
-  | str e ih =>
+/-- visiting changes nothing and raises nothing -/
+def Fixed (r : AnnE) : Prop := r.visit = (some r, r)
+
+/-- what `visit_spec` says of one expression -/
+def VisitOk (e : AnnE) : Prop :=
+  (e.visit.2).strip = e.strip ∧
+  ∀ r, e.visit.1 = some r →
+    r.strip = e.strip ∧ r.noQuotes = true ∧ Fixed r ∧ (∀ a b, r = .tup a b → Fixed a)
+
+theorem noQuotes_sub (v s : AnnE) :
+    (AnnE.sub v s).noQuotes =
+      (v.noQuotes && (v.isTypingName .literal || s.noQuotes ||
+        (v.isTypingName .annotated && match s with | .tup a _ => a.noQuotes | _ => false))) := by
+  cases s <;> rfl
+
+/-- the "other subscript" branch: the slice is visited -/
+def plainSlice (v' vm s : AnnE) : Option AnnE × AnnE :=
+  match s.visit with
+  | (some s', sm) => (some (.sub v' s'), .sub vm sm)
+  | (none, sm) => (none, .sub vm sm)
+
+/-- the `Annotated[T, metadata]` branch: only `T` is visited -/
+def annotatedSlice (v' vm a b : AnnE) : Option AnnE × AnnE :=
+  match a.visit with
+  | (some a', am) => (some (.sub v' (.tup a' b)), .sub vm (.tup am b))
+  | (none, am) => (none, .sub vm (.tup am b))
+
+theorem visit_sub_tup (v a b : AnnE) :
+    (AnnE.sub v (.tup a b)).visit =
+      match v.visit with
+      | (none, vm) => (none, .sub vm (.tup a b))
+      | (some v', vm) =>
+        if v'.isTypingName .literal then (some (.sub v' (.tup a b)), .sub vm (.tup a b))
+        else if v'.isTypingName .annotated then annotatedSlice v' vm a b
+        else plainSlice v' vm (.tup a b) := by
+  simp only [AnnE.visit, annotatedSlice, plainSlice]
+  cases v.visit with
+  | mk res vm => cases res <;> simp <;> (repeat' split) <;> simp_all
+
+theorem visit_sub_other (v s : AnnE) (hs : ∀ a b, s ≠ .tup a b) :
+    (AnnE.sub v s).visit =
+      match v.visit with
+      | (none, vm) => (none, .sub vm s)
+      | (some v', vm) =>
+        if v'.isTypingName .literal then (some (.sub v' s), .sub vm s)
+        else plainSlice v' vm s := by
+  cases s with
+  | tup a b => exact absurd rfl (hs a b)
+  | _ =>
+    simp only [AnnE.visit, plainSlice]
+    cases v.visit with
+    | mk res vm => cases res <;> simp <;> (repeat' split) <;> simp_all
+
+theorem sub_fixed_literal (v' s : AnnE) (h3 : Fixed v') (hl : v'.isTypingName .literal = true) :
+    Fixed (.sub v' s) := by
+  unfold Fixed at *
+  cases s with
+  | tup a b => simp [visit_sub_tup, h3, hl]
+  | _ => rw [visit_sub_other _ _ (by intro _ _ h; cases h)]; simp [h3, hl]
+
+theorem sub_fixed_plain (v' s' : AnnE) (h3 : Fixed v') (hl : v'.isTypingName .literal = false)
+    (g3 : Fixed s') (g4 : ∀ a b, s' = .tup a b → Fixed a) : Fixed (.sub v' s') := by
+  unfold Fixed at *
+  cases s' with
+  | tup a' b' =>
+    by_cases hA : v'.isTypingName .annotated = true
+    · have := g4 a' b' rfl
+      unfold Fixed at this
+      simp [visit_sub_tup, h3, hl, hA, annotatedSlice, this]
+    · have hA' : v'.isTypingName .annotated = false := by simpa using hA
+      simp [visit_sub_tup, h3, hl, hA', plainSlice, g3]
+  | _ => rw [visit_sub_other _ _ (by intro _ _ h; cases h)]; simp [h3, hl, plainSlice, g3]
+
+theorem visitOk_sub_nontup (v s : AnnE) (hs : ∀ a b, s ≠ .tup a b) (hv : VisitOk v) (hsOk : VisitOk s) :
+    VisitOk (.sub v s) := by
+  obtain ⟨hvm, hvr⟩ := hv
+  obtain ⟨hsm, hsr⟩ := hsOk
+  unfold VisitOk
+  rw [visit_sub_other v s hs]
+  cases hvv : v.visit with
+  | mk res vm =>
+    rw [hvv] at hvm hvr
+    simp only at hvm
+    cases res with
+    | none => simp [AnnE.strip, hvm]
+    | some v' =>
+      obtain ⟨h1, h2, h3, _⟩ := hvr v' rfl
+      by_cases hl : v'.isTypingName .literal = true
+      · have hfixL := sub_fixed_literal v' s h3 hl
+        simp [hl, AnnE.strip, noQuotes_sub, h1, h2, hvm, hfixL]
+      · have hl' : v'.isTypingName .literal = false := by simpa using hl
+        simp only [hl', Bool.false_eq_true, if_false, plainSlice]
+        cases hss : s.visit with
+        | mk sres sm =>
+          rw [hss] at hsm hsr
+          simp only at hsm
+          cases sres with
+          | none => simpa [AnnE.strip, hvm] using hsm
+          | some s' =>
+            obtain ⟨g1, g2, g3, g4⟩ := hsr s' rfl
+            refine ⟨by simpa [AnnE.strip, hvm] using hsm, ?_⟩
+            intro r hr
+            simp only [Option.some.injEq] at hr
+            subst hr
+            exact ⟨by simpa [AnnE.strip, h1] using g1, by simp [noQuotes_sub, h2, g2],
+              sub_fixed_plain v' s' h3 hl' g3 g4, by intro a b h; cases h⟩
+
+theorem visitOk_leaf (e : AnnE) (h : e.visit = (some e, e)) (hq : e.noQuotes = true)
+    (ht : ∀ a b, e ≠ .tup a b) : VisitOk e := by
+  unfold VisitOk
+  rw [h]
+  refine ⟨rfl, ?_⟩
+  intro r hr
+  simp only [Option.some.injEq] at hr
+  subst hr
+  exact ⟨rfl, hq, h, fun a b hab => absurd hab (ht a b)⟩
+
+theorem visit_spec : (e : AnnE) → VisitOk e
+  | .atom a => visitOk_leaf _ rfl rfl (by intro _ _ h; cases h)
+  | .literalName => visitOk_leaf _ rfl rfl (by intro _ _ h; cases h)
+  | .annotatedName => visitOk_leaf _ rfl rfl (by intro _ _ h; cases h)
+  | .aliasRef a t => visitOk_leaf _ rfl rfl (by intro _ _ h; cases h)
+  | .noneLit => visitOk_leaf _ rfl rfl (by intro _ _ h; cases h)
+  | .badStr a => by simp [VisitOk, AnnE.visit, AnnE.strip]
+  | .str e => by
+    have ih := visit_spec e
     refine ⟨by simp [AnnE.visit], ?_⟩
     intro r h
     simp only [AnnE.visit] at h
-    obtain ⟨h1, h2, h3⟩ := ih.2 r h
-    exact ⟨by simp [AnnE.strip, h1], h2, h3⟩
-  | attr v n ih =>
-    obtain ⟨ihm, ihr⟩ := ih
+    obtain ⟨h1, h2, h3, h4⟩ := ih.2 r h
+    exact ⟨by simp [AnnE.strip, h1], h2, h3, h4⟩
+  | .attr v n => by
+    obtain ⟨ihm, ihr⟩ := visit_spec v
+    unfold VisitOk
     cases hv : v.visit with
     | mk res vm =>
       rw [hv] at ihm ihr
       cases res with
       | none => simp_all [AnnE.visit, AnnE.strip]
       | some v' =>
-        obtain ⟨h1, h2, h3⟩ := ihr v' rfl
-        simp [AnnE.visit, hv, AnnE.strip, AnnE.noQuotes, h1, h2, h3]
-  | sub v sl ihv ihs =>
-    obtain ⟨ihvm, ihvr⟩ := ihv
-    obtain ⟨ihsm, ihsr⟩ := ihs
-    cases hv : v.visit with
-    | mk res vm =>
-      rw [hv] at ihvm ihvr
-      simp only at ihvm
-      cases res with
-      | none => simp [AnnE.visit, hv, AnnE.strip, ihvm]
-      | some v' =>
-        obtain ⟨h1, h2, h3⟩ := ihvr v' rfl
-        by_cases hl : v'.isLiteralRef = true
-        · simp [AnnE.visit, hv, hl, AnnE.strip, AnnE.noQuotes, h1, h2, h3, ihvm]
-        · have hl' : v'.isLiteralRef = false := by simpa using hl
-          cases hs : sl.visit with
-          | mk sres sm =>
-            rw [hs] at ihsm ihsr
-            simp only at ihsm
-            cases sres with
-            | none => simp [AnnE.visit, hv, hl', hs, AnnE.strip, ihvm, ihsm]
-            | some s' =>
-              obtain ⟨g1, g2, g3⟩ := ihsr s' rfl
-              simp [AnnE.visit, hv, hl', hs, AnnE.strip, AnnE.noQuotes, h1, h2, h3, g1, g2, g3, ihvm, ihsm]
-  | tup a b iha ihb =>
-    obtain ⟨iham, ihar⟩ := iha
-    obtain ⟨ihbm, ihbr⟩ := ihb
+        obtain ⟨h1, h2, h3, _⟩ := ihr v' rfl
+        unfold Fixed at h3
+        simp [AnnE.visit, hv, AnnE.strip, AnnE.noQuotes, h1, h2, h3, Fixed]
+  | .tup a b => by
+    obtain ⟨iham, ihar⟩ := visit_spec a
+    obtain ⟨ihbm, ihbr⟩ := visit_spec b
+    unfold VisitOk
     cases ha : a.visit with
     | mk ares am =>
       rw [ha] at iham ihar
@@ -1534,7 +1636,7 @@ theorem visit_spec : ∀ (e : AnnE),
       cases ares with
       | none => simp [AnnE.visit, ha, AnnE.strip, iham]
       | some a' =>
-        obtain ⟨h1, h2, h3⟩ := ihar a' rfl
+        obtain ⟨h1, h2, h3, _⟩ := ihar a' rfl
         cases hb : b.visit with
         | mk bres bm =>
           rw [hb] at ihbm ihbr
@@ -1542,11 +1644,20 @@ theorem visit_spec : ∀ (e : AnnE),
           cases bres with
           | none => simp [AnnE.visit, ha, hb, AnnE.strip, iham, ihbm]
           | some b' =>
-            obtain ⟨g1, g2, g3⟩ := ihbr b' rfl
-            simp [AnnE.visit, ha, hb, AnnE.strip, AnnE.noQuotes, h1, h2, h3, g1, g2, g3]
-  | bor a b iha ihb =>
-    obtain ⟨iham, ihar⟩ := iha
-    obtain ⟨ihbm, ihbr⟩ := ihb
+            obtain ⟨g1, g2, g3, _⟩ := ihbr b' rfl
+            have h3' := h3
+            unfold Fixed at h3 g3
+            simp only [AnnE.visit, ha, hb, AnnE.strip, h1, g1, true_and, Option.some.injEq]
+            intro r hr
+            subst hr
+            refine ⟨by simp [AnnE.strip, h1, g1], by simp [AnnE.noQuotes, h2, g2], by simp [Fixed, AnnE.visit, h3, g3], ?_⟩
+            intro x y hxy
+            cases hxy
+            exact h3'
+  | .bor a b => by
+    obtain ⟨iham, ihar⟩ := visit_spec a
+    obtain ⟨ihbm, ihbr⟩ := visit_spec b
+    unfold VisitOk
     cases ha : a.visit with
     | mk ares am =>
       rw [ha] at iham ihar
@@ -1554,7 +1665,7 @@ theorem visit_spec : ∀ (e : AnnE),
       cases ares with
       | none => simp [AnnE.visit, ha, AnnE.strip, iham]
       | some a' =>
-        obtain ⟨h1, h2, h3⟩ := ihar a' rfl
+        obtain ⟨h1, h2, h3, _⟩ := ihar a' rfl
         cases hb : b.visit with
         | mk bres bm =>
           rw [hb] at ihbm ihbr
@@ -1562,8 +1673,74 @@ theorem visit_spec : ∀ (e : AnnE),
           cases bres with
           | none => simp [AnnE.visit, ha, hb, AnnE.strip, h1, ihbm]
           | some b' =>
-            obtain ⟨g1, g2, g3⟩ := ihbr b' rfl
-            simp [AnnE.visit, ha, hb, AnnE.strip, AnnE.noQuotes, h1, h2, h3, g1, g2, g3]
+            obtain ⟨g1, g2, g3, _⟩ := ihbr b' rfl
+            unfold Fixed at h3 g3
+            simp [AnnE.visit, ha, hb, AnnE.strip, AnnE.noQuotes, h1, h2, h3, g1, g2, g3, Fixed]
+  | .sub v (.tup a b) => by
+    obtain ⟨hvm, hvr⟩ := visit_spec v
+    obtain ⟨ham, har⟩ := visit_spec a
+    obtain ⟨hsm, hsr⟩ := visit_spec (.tup a b)
+    unfold VisitOk
+    rw [visit_sub_tup]
+    cases hvv : v.visit with
+    | mk res vm =>
+      rw [hvv] at hvm hvr
+      simp only at hvm
+      cases res with
+      | none => simp [AnnE.strip, hvm]
+      | some v' =>
+        obtain ⟨h1, h2, h3, _⟩ := hvr v' rfl
+        by_cases hl : v'.isTypingName .literal = true
+        · have hfixL := sub_fixed_literal v' (.tup a b) h3 hl
+          simp [hl, AnnE.strip, noQuotes_sub, h1, h2, hvm, hfixL]
+        · have hl' : v'.isTypingName .literal = false := by simpa using hl
+          by_cases hA : v'.isTypingName .annotated = true
+          · simp only [hl', hA, Bool.false_eq_true, if_false, if_true, annotatedSlice]
+            cases haa : a.visit with
+            | mk ares am =>
+              rw [haa] at ham har
+              simp only at ham
+              cases ares with
+              | none => simp [AnnE.strip, hvm, ham]
+              | some a' =>
+                obtain ⟨g1, g2, g3, _⟩ := har a' rfl
+                have hfix : Fixed (.sub v' (.tup a' b)) := by
+                  have h3' := h3
+                  have g3' := g3
+                  unfold Fixed at h3' g3' ⊢
+                  simp [visit_sub_tup, h3', hl', hA, annotatedSlice, g3']
+                refine ⟨by simp [AnnE.strip, hvm, ham], ?_⟩
+                intro r hr
+                simp only [Option.some.injEq] at hr
+                subst hr
+                exact ⟨by simp [AnnE.strip, h1, g1], by simp [noQuotes_sub, h2, hA, g2], hfix,
+                  by intro _ _ h; cases h⟩
+          · have hA' : v'.isTypingName .annotated = false := by simpa using hA
+            simp only [hl', hA', Bool.false_eq_true, if_false, plainSlice]
+            cases hss : (AnnE.tup a b).visit with
+            | mk sres sm =>
+              rw [hss] at hsm hsr
+              simp only at hsm
+              cases sres with
+              | none => simpa [AnnE.strip, hvm] using hsm
+              | some s' =>
+                obtain ⟨g1, g2, g3, g4⟩ := hsr s' rfl
+                refine ⟨by simpa [AnnE.strip, hvm] using hsm, ?_⟩
+                intro r hr
+                simp only [Option.some.injEq] at hr
+                subst hr
+                exact ⟨by simpa [AnnE.strip, h1] using g1, by simp [noQuotes_sub, h2, g2],
+                  sub_fixed_plain v' s' h3 hl' g3 g4, by intro _ _ h; cases h⟩
+  | .sub v (.atom k) => visitOk_sub_nontup _ _ (by intro _ _ h; cases h) (visit_spec v) (visit_spec _)
+  | .sub v .literalName => visitOk_sub_nontup _ _ (by intro _ _ h; cases h) (visit_spec v) (visit_spec _)
+  | .sub v .annotatedName => visitOk_sub_nontup _ _ (by intro _ _ h; cases h) (visit_spec v) (visit_spec _)
+  | .sub v (.aliasRef k t) => visitOk_sub_nontup _ _ (by intro _ _ h; cases h) (visit_spec v) (visit_spec _)
+  | .sub v .noneLit => visitOk_sub_nontup _ _ (by intro _ _ h; cases h) (visit_spec v) (visit_spec _)
+  | .sub v (.str x) => visitOk_sub_nontup _ _ (by intro _ _ h; cases h) (visit_spec v) (visit_spec _)
+  | .sub v (.badStr k) => visitOk_sub_nontup _ _ (by intro _ _ h; cases h) (visit_spec v) (visit_spec _)
+  | .sub v (.attr x n) => visitOk_sub_nontup _ _ (by intro _ _ h; cases h) (visit_spec v) (visit_spec _)
+  | .sub v (.sub x y) => visitOk_sub_nontup _ _ (by intro _ _ h; cases h) (visit_spec v) (visit_spec _)
+  | .sub v (.bor x y) => visitOk_sub_nontup _ _ (by intro _ _ h; cases h) (visit_spec v) (visit_spec _)
 
 /-- **`Signature.unstring_only_quotes`**: whatever `unstring_annotation` returns — the unquoted
 expression, or after a `SyntaxError` the original node as the transformer left it — is the source
@@ -1571,6 +1748,7 @@ expression up to string quoting: it never changes a name, an attribute, a subscr
 theorem unstring_only_quotes (e : AnnE) : e.unstring.strip = e.strip := by
   unfold AnnE.unstring
   have := visit_spec e
+  unfold VisitOk at this
   cases h : e.visit with
   | mk res orig =>
     rw [h] at this
@@ -1584,6 +1762,7 @@ theorem unstring_result (e : AnnE) :
     e.unstringE = none ∨ (e.unstringE = some e.unstring ∧ e.unstring.noQuotes = true) := by
   unfold AnnE.unstring AnnE.unstringE
   have := visit_spec e
+  unfold VisitOk at this
   cases h : e.visit with
   | mk res orig =>
     rw [h] at this
@@ -1594,32 +1773,69 @@ theorem unstring_result (e : AnnE) :
 /-- **`Signature.unstring_idempotent`**: a successfully unquoted annotation is a fixed point (and visiting
 it modifies nothing). -/
 theorem unstring_idempotent (e r : AnnE) (h : e.unstringE = some r) : r.unstring = r ∧ r.visit = (some r, r) := by
-  have := ((visit_spec e).2 r h).2.2
+  have := ((visit_spec e).2 r h).2.2.1
+  unfold Fixed at this
   exact ⟨by simp [AnnE.unstring, this], this⟩
 
-/-- **`Signature.literal_args_verbatim`**: the arguments of `Literal[...]` stay as written whatever
-prefix `Literal` is reached through (`Literal`, `typing.Literal`, `t.Literal`, `"t".Literal` …),
-while the prefix itself is unquoted. -/
-theorem literal_args_verbatim (v v' vm sl : AnnE) (hv : v.visit = (some v', vm)) :
+/-- **`Signature.value_strings_kept`**: strings that are VALUES keep their quotes — the whole slice of
+anything that designates `typing.Literal` (spelled `Literal`, `x.Literal`, or a name that resolves to it),
+and the metadata of anything that designates `typing.Annotated` (only its first argument, the type,
+is unquoted) — while the subscripted expression itself is unquoted. -/
+theorem value_strings_kept (v v' vm : AnnE) (hv : v.visit = (some v', vm)) :
+    (v'.isTypingName .literal = true → ∀ sl, (AnnE.sub v sl).unstring = .sub v' sl) ∧
+    (v'.isTypingName .literal = false → v'.isTypingName .annotated = true →
+      ∀ a a' am b, a.visit = (some a', am) → (AnnE.sub v (.tup a b)).unstring = .sub v' (.tup a' b)) := by
+  constructor
+  · intro hl sl
+    unfold AnnE.unstring
+    cases sl with
+    | tup a b => simp [visit_sub_tup, hv, hl]
+    | _ => rw [visit_sub_other _ _ (by intro _ _ h; cases h)]; simp [hv, hl]
+  · intro hl hA a a' am b ha
+    unfold AnnE.unstring
+    simp [visit_sub_tup, hv, hl, hA, annotatedSlice, ha]
+
+/-- **`Signature.literal_args_verbatim`**: the arguments of `Literal[...]` stay as written whatever way
+`Literal` is reached: the bare name, any `x.Literal` (the prefix itself is unquoted), or a name imported
+under another spelling that resolves to it. -/
+theorem literal_args_verbatim (v v' vm sl : AnnE) (k : Nat) (hv : v.visit = (some v', vm)) :
     (AnnE.sub .literalName sl).unstring = .sub .literalName sl ∧
-    (AnnE.sub (.attr v 0) sl).unstring = .sub (.attr v' 0) sl := by
-  simp [AnnE.unstring, AnnE.visit, hv, AnnE.isLiteralRef]
+    (AnnE.sub (.attr v 0) sl).unstring = .sub (.attr v' 0) sl ∧
+    (AnnE.sub (.aliasRef k .literal) sl).unstring = .sub (.aliasRef k .literal) sl := by
+  refine ⟨(value_strings_kept .literalName .literalName .literalName rfl).1 rfl sl,
+    (value_strings_kept (.attr v 0) (.attr v' 0) (.attr v' 0) (by simp [AnnE.visit, hv])).1 rfl sl,
+    (value_strings_kept (.aliasRef k .literal) _ _ rfl).1 (by simp [AnnE.isTypingName]) sl⟩
+
+/-- **`Signature.annotated_metadata_verbatim`**: `Annotated[T, meta]` (bare, `x.Annotated`, aliased): `T`
+is unquoted, `meta` stays as written. -/
+theorem annotated_metadata_verbatim (a a' am b : AnnE) (k : Nat) (ha : a.visit = (some a', am)) :
+    (AnnE.sub .annotatedName (.tup a b)).unstring = .sub .annotatedName (.tup a' b) ∧
+    (AnnE.sub (.aliasRef k .annotated) (.tup a b)).unstring = .sub (.aliasRef k .annotated) (.tup a' b) := by
+  refine ⟨(value_strings_kept .annotatedName _ _ rfl).2 rfl rfl a a' am b ha,
+    (value_strings_kept (.aliasRef k .annotated) _ _ rfl).2 (by simp [AnnE.isTypingName])
+      (by simp [AnnE.isTypingName]) a a' am b ha⟩
 
 /-- … and any other subscript has its slice unquoted -/
 theorem other_subscript_unquoted (v v' vm sl sl' sm : AnnE) (hv : v.visit = (some v', vm))
-    (hl : v'.isLiteralRef = false) (hs : sl.visit = (some sl', sm)) :
+    (hl : v'.isTypingName .literal = false) (hA : v'.isTypingName .annotated = false)
+    (hs : sl.visit = (some sl', sm)) :
     (AnnE.sub v sl).unstring = .sub v' sl' := by
-  simp [AnnE.unstring, AnnE.visit, hv, hl, hs]
+  unfold AnnE.unstring
+  cases sl with
+  | tup a b => simp [visit_sub_tup, hv, hl, hA, plainSlice, hs]
+  | _ => rw [visit_sub_other _ _ (by intro _ _ h; cases h)]; simp [hv, hl, plainSlice, hs]
 
-/-- FULL-STRENGTH statement (false of the code today, kept visible): "a string that is a VALUE, not a
-forward reference, keeps its quotes" — the code recognises a value context only by the spelling
-`Literal` / `x.Literal` (`literal_args_verbatim` is the part that holds). With `Annotated` an opaque
-name (50) and `L` a name bound by `from typing import Literal as L` (51):
-`Annotated[a1, 'a2']` becomes `Annotated[a1, a2]` and `L['a1']` becomes `L[a1]`.
-Replayed on the real code: open finding `annotation:value-string-unquoted`. -/
+/-- HISTORICAL (the code before commit c06a302, `AnnE.visitOld`): a value context was recognised only by the
+spelling `Literal` / `x.Literal`, so `Annotated[a1, 'a2']` became `Annotated[a1, a2]` and, with `L` bound by
+`from typing import Literal as L`, `L['a1']` became `L[a1]` (finding `annotation:value-string-unquoted`,
+fixed). Today both come back as written. -/
 theorem value_strings_unquoted_counterexample :
-    (AnnE.sub (.atom 50) (.tup (.atom 1) (.str (.atom 2)))).unstring = .sub (.atom 50) (.tup (.atom 1) (.atom 2)) ∧
-    (AnnE.sub (.atom 51) (.str (.atom 1))).unstring = .sub (.atom 51) (.atom 1) := by
+    (AnnE.sub .annotatedName (.tup (.atom 1) (.str (.atom 2)))).unstringOld
+      = .sub .annotatedName (.tup (.atom 1) (.atom 2)) ∧
+    (AnnE.sub (.aliasRef 51 .literal) (.str (.atom 1))).unstringOld = .sub (.aliasRef 51 .literal) (.atom 1) ∧
+    (AnnE.sub .annotatedName (.tup (.atom 1) (.str (.atom 2)))).unstring
+      = .sub .annotatedName (.tup (.atom 1) (.str (.atom 2))) ∧
+    (AnnE.sub (.aliasRef 51 .literal) (.str (.atom 1))).unstring = .sub (.aliasRef 51 .literal) (.str (.atom 1)) := by
   decide
 
 /-- **`Signature.unstring_failure_in_place`** (what the code does today, not what its docstring says):
